@@ -11,7 +11,7 @@ from .core import Result, quiet, digest_of
 from .oracle import diff, fingerprint, outcome
 from .simcfg import gen_sim_cfg, simpler_sim_cfgs
 from .simpool import Sim, Installed, SimDeadlock
-from .workload import gen_band, gen_signal_spec, build_signal, gen_thresholds, \
+from .workload import thorough, gen_band, gen_signal_spec, build_signal, gen_thresholds, \
     gen_burst_kwargs, gen_find_extrema_kwargs
 
 ID = 'C14'
@@ -120,6 +120,8 @@ def gen_plan(wl, fr, idx):
     cur = ref.object_settings(ctor)
     ops = []
     n_ops = wl.randint(2, 14)
+    if thorough() and wl.random() < 0.3:
+        n_ops = wl.randint(15, 24)
     if kind == 'single':
         nsig = wl.randint(1, 3)
         plan['signals'] = []
@@ -158,6 +160,18 @@ def gen_plan(wl, fr, idx):
             ops.append({'op': 'recompute', 'r': wl.choice((0.05, 0.1, 0.2))})
             ops.append({'op': 'recompute', 'r': wl.choice((None, 0.1, 0.3))})
             ops.append({'op': 'fit', 'sig': wl.randrange(nsig)})
+        elif scen < 0.57 and cur['burst_method'] == 'cycles':
+            # fit -> recompute(r) -> threshold edit -> [fit] -> recompute(same r)
+            rr = wl.choice((None, 0.05, 0.1, 0.2))
+            ops.append({'op': 'fit', 'sig': 0})
+            ops.append({'op': 'recompute', 'r': rr})
+            op = {'op': 'edit', 'target': 'threshold', 'key': wl.choice(CYC_KEYS),
+                  'value': wl.choice((0.2, 0.3, 0.4, 0.6, 0.7))}
+            ops.append(op)
+            _shadow_apply(cur, op)
+            if wl.random() < 0.5:
+                ops.append({'op': 'fit', 'sig': wl.randrange(nsig)})
+            ops.append({'op': 'recompute', 'r': rr})
         while len(ops) < n_ops:
             r = wl.random()
             if r < 0.36:
